@@ -1,8 +1,25 @@
+import PyGam.Model.BSpline
 import PyGam.Drv.Common
 namespace PyGam.Drv.C03
 open PyGam PyGam.Drv
 
-/-- operations of the C03 model driver (`C03 <op> <args…>`); `none` ↦ `bad-op` -/
+def eps : Rat := mkRat 1 1000000000
+
+/-- operations of the C03 model driver:
+* `row <n> <p> <periodic:0|1> <e0> <e1> <x>`  → the exact basis row (rationals)
+* `knots <categorical:0|1> <min> <max>`       → edge knots -/
 def handle : List String → Option String
+  | ["row", n, p, per, e0, e1, x] => do
+      let n ← n.toNat?; let p ← p.toNat?
+      let per ← (if per = "1" then some true else if per = "0" then some false else none)
+      let e0 ← parseRat? e0; let e1 ← parseRat? e1; let x ← parseRat? x
+      if n < p + 1 then none else
+      let c : BasisCfg Rat := { nSplines := n, order := p, periodic := per, e0 := e0, e1 := e1 }
+      some (showRatList (vecToList n (basisRow eps c x)))
+  | ["knots", cat, a, b] => do
+      let cat ← (if cat = "1" then some true else if cat = "0" then some false else none)
+      let a ← parseRat? a; let b ← parseRat? b
+      let k := edgeKnots cat a b (mkRat 1 2)
+      some (showRat k.1 ++ " " ++ showRat k.2)
   | _ => none
 end PyGam.Drv.C03
